@@ -25,5 +25,71 @@ impl serde::SerView for Response { open spec fn ser_view(&self) -> SerTree { Ser
 //@   makepub
 //@ extract sw impl Serialize for Ident
 //@ extract sw impl Serialize for Response
+
+// ================= deserialisation =================
+use serde::de::MapAccess;
+// which member a key names.  Integer keys: the numbers of the CTAP specification (table above), any other number in 0..255
+// names no member; a number above 255 is not a key at all (rejected).  Text keys (and byte strings holding UTF-8 text): the
+// macro also accepts a member's camelCase name (strum's EnumString, assumed: `name_ident`); any other text names no member.
+pub open spec fn ident_of_number(n: int) -> Ident { if n == 1 { Ident::credential } else if n == 2 { Ident::auth_data } else if n == 3 { Ident::signature } else if n == 4 { Ident::user } else if n == 5 { Ident::number_of_credentials } else if n == 6 { Ident::user_selected } else if n == 7 { Ident::large_blob_key } else if n == 8 { Ident::unsigned_extension_outputs } else { Ident::Unknown } }
+pub uninterp spec fn name_ident(s: Seq<char>) -> Option<Ident>;
+pub open spec fn ident_of_name(s: Seq<char>) -> Ident { match name_ident(s) { Some(i) => i, None => Ident::Unknown } }
+impl serde::de::KeyView for Ident {
+    open spec fn key_view(k: DeKey) -> Option<Ident> {
+        match k {
+            DeKey::U(n) => if 0 <= n <= 255 { Some(ident_of_number(n)) } else { None },
+            DeKey::Text(s) => Some(ident_of_name(s)),
+            DeKey::Bytes(b) => Some(match spec_utf8(b) { Some(s) => ident_of_name(s), None => Ident::Unknown }),
+            DeKey::Other => None,
+        }
+    }
+}
+pub struct ParseError;
+impl TryFrom<&str> for Ident {
+    type Error = ParseError;
+    #[verifier::external_body]
+    fn try_from(s: &str) -> (r: Result<Ident, ParseError>) ensures match r { Ok(i) => name_ident(s@) == Some(i), Err(_) => name_ident(s@) is None } { unimplemented!() }
+}
+impl From<Ident> for &'static str { #[verifier::external_body] fn from(x: Ident) -> &'static str { unimplemented!() } }
+pub trait VxTryU8: Sized { spec fn vx_val(self) -> int; fn vx_try_into_u8(self) -> (r: Result<u8, ()>) ensures match r { Ok(v) => v as int == self.vx_val(), Err(_) => self.vx_val() > 255 }; }
+impl VxTryU8 for u16 { open spec fn vx_val(self) -> int { self as int } #[verifier::external_body] fn vx_try_into_u8(self) -> (r: Result<u8, ()>) { unimplemented!() } }
+impl VxTryU8 for u32 { open spec fn vx_val(self) -> int { self as int } #[verifier::external_body] fn vx_try_into_u8(self) -> (r: Result<u8, ()>) { unimplemented!() } }
+impl VxTryU8 for u64 { open spec fn vx_val(self) -> int { self as int } #[verifier::external_body] fn vx_try_into_u8(self) -> (r: Result<u8, ()>) { unimplemented!() } }
+impl VxTryU8 for u128 { open spec fn vx_val(self) -> int { self as int } #[verifier::external_body] fn vx_try_into_u8(self) -> (r: Result<u8, ()>) { unimplemented!() } }
+// no member is named twice among the first k entries, and every key is one
+pub open spec fn dup_free(e: Seq<(DeKey, int)>, k: int) -> bool
+    decreases k
+{
+    if k <= 0 { true } else { dup_free(e, k - 1) && (match <Ident as serde::de::KeyView>::key_view(e[k - 1].0) { None => false, Some(id) => id is Unknown || occ(e, k - 1, id) is None }) }
+}
+pub proof fn lemma_dup_free_prefixes(e: Seq<(DeKey, int)>)
+    ensures forall|j: int| 0 <= j <= e.len() && dup_free(e, e.len() as int) ==> #[trigger] dup_free(e, j)
+{
+    assert forall|j: int| 0 <= j <= e.len() && dup_free(e, e.len() as int) implies #[trigger] dup_free(e, j) by { lemma_dup_free_down(e, j, e.len() as int); }
+}
+pub proof fn lemma_dup_free_down(e: Seq<(DeKey, int)>, j: int, n: int)
+    requires 0 <= j <= n, dup_free(e, n)
+    ensures dup_free(e, j)
+    decreases n - j
+{ if j < n { lemma_dup_free_down(e, j, n - 1); } }
+// the value of a member: the value of the entry that names it, decoded for the member's type; absent: None
+pub open spec fn member<V>(e: Seq<(DeKey, int)>, k: int, id: Ident) -> Option<V> { match occ(e, k, id) { Some(i) => Some(de_val::<V>(e[i].1)), None => None } }
+pub mod utils { pub mod serde_workaround {
+    use crate::*;
+    //@ source swu passkey-types/src/utils/serde_workaround.rs
+    //@ extract swu fn set_if_none
+    //@ extract swu fn check_is_already_set
+} }
+//@ extract sw impl Ident
+//@ extract sw struct FieldVisitor
+//@ extract sw impl serde::de::Visitor for FieldVisitor
+//@   drop expecting
+//@   rule R34
+//@ extract sw struct Visitor
+//@ extract sw impl serde::de::Visitor for Visitor
+//@   drop expecting
+//@   rule R33
+//@   rule R36
+//@   rule R37
 } // verus!
 fn main() {}
